@@ -38,7 +38,7 @@ func ParseReference(line string) (Reference, error) {
 		return Reference{}, fmt.Errorf("SHA-1 improperly formatted: %#v", words[0])
 	}
 	objectType := ObjectType(words[1])
-	objectSize, err := strconv.ParseUint(words[2], 10, 32)
+	objectSize, err := strconv.ParseUint(words[2], 10, 64)
 	if err != nil {
 		return Reference{}, fmt.Errorf("object size improperly formatted: %#v", words[2])
 	}
@@ -46,7 +46,7 @@ func ParseReference(line string) (Reference, error) {
 	return Reference{
 		Refname:    refname,
 		ObjectType: objectType,
-		ObjectSize: counts.Count32(objectSize),
+		ObjectSize: counts.NewCount32(objectSize),
 		OID:        oid,
 	}, nil
 }
